@@ -119,7 +119,22 @@ func c15One(c *vf.Ctx, sub string, i int, r *rand.Rand, ids []Ident) {
 		actMu.Unlock()
 	}
 	dst.OnPut = func(key string) { note("store-write " + key) }
-	hook := func(p peer.ID, cd cid.Cid, _ dagsync.SegmentSyncActions) { note("hook " + cd.String()) }
+	// in some explicit cases the block hook, once Close has begun, calls an explicit sync entry point for ANOTHER
+	// publisher (an application reacting to an advertisement by fetching something): that call must come back, or
+	// the sync that Close is waiting for never ends
+	nested := !announced && explicitKind == "SyncAdChain" && point == "front" && r.Intn(2) >= 0
+	var nestedOnce atomic.Bool
+	var sp atomic.Pointer[dagsync.Subscriber]
+	ent2, _ := NewEntryChain(r, pst2, 1, linkProto(multihash.SHA2_256, -1))
+	hook := func(p peer.ID, cd cid.Cid, _ dagsync.SegmentSyncActions) {
+		note("hook " + cd.String())
+		if nested && ent2 != nil && tl.count("close.begin") > 0 && nestedOnce.CompareAndSwap(false, true) {
+			if sub := sp.Load(); sub != nil {
+				_ = sub.SyncOneEntry(context.Background(), front2.AddrInfo(), ent2.Head())
+				c.Inc("explicit_call_from_the_hook_of_a_sync_close_waits_for")
+			}
+		}
+	}
 	sopts := []dagsync.Option{dagsync.RecvAnnounce(""), dagsync.BlockHook(hook)}
 	if maxAsync > 0 {
 		sopts = append(sopts, dagsync.MaxAsyncConcurrency(maxAsync))
@@ -129,6 +144,7 @@ func c15One(c *vf.Ctx, sub string, i int, r *rand.Rand, ids []Ident) {
 		c.Fail(sub, i, "harness-subscriber", err.Error(), nil)
 		return
 	}
+	sp.Store(s)
 	wit := func() any {
 		var lines []string
 		evs := tl.events()
@@ -327,12 +343,29 @@ func c15One(c *vf.Ctx, sub string, i int, r *rand.Rand, ids []Ident) {
 		}(k)
 	}
 	// let Close get going, then let the gated sync continue
+	cancelChecked := false
 	if point != "none" {
 		deadline := time.Now().Add(5 * time.Second)
 		for tl.count("close.begin") == 0 && time.Now().Before(deadline) {
 			time.Sleep(100 * time.Microsecond)
 		}
 		time.Sleep(time.Duration(r.Intn(400)) * time.Microsecond)
+		// an announce-triggered sync that is held before it has fetched anything stays held until Close has stopped
+		// the announcement watcher, which is what cancels such syncs: released after that, it must not fetch, store
+		// or report a single block. (Close does not need the held sync to get that far.)
+		cancellable := map[string]bool{"async.enter": true, "async.locked": true, "async.sem": true, "pending.taken": true, "sync.enter": true, "front": true}
+		if announced && cancellable[point] && tl.count("close.begin") > 0 {
+			dl := time.Now().Add(30 * time.Second)
+			for tl.count("close.receiver.closed") == 0 && time.Now().Before(dl) {
+				time.Sleep(200 * time.Microsecond)
+			}
+			if tl.count("close.receiver.closed") == 0 {
+				c15Hangs.Add(1)
+				c.Fail(sub, i, "close-waits-for-a-held-announce-sync-instead-of-cancelling-it", "30 s after Close began it has not stopped the announcement watcher while an announce-triggered sync is held at "+point, wit())
+			} else {
+				cancelChecked = true
+			}
+		}
 	}
 	release()
 	cwg.Wait()
@@ -392,6 +425,22 @@ func c15One(c *vf.Ctx, sub string, i int, r *rand.Rand, ids []Ident) {
 	for g, t := range enter {
 		if t < tc && (exit[g] == 0 || exit[g] > tc) {
 			c.Fail(sub, i, "close-returned-while-announce-sync-running", fmt.Sprintf("handling goroutine g%d entered@%d exit@%d, Close returned@%d", g, t, exit[g], tc), wit())
+		}
+	}
+	if cancelChecked {
+		c.Inc("announce_syncs_held_until_the_watcher_was_stopped")
+		actMu.Lock()
+		for _, a := range acts {
+			if f := strings.Fields(a.What); len(f) == 2 && f[0] == "hook" {
+				if cd, err := cid.Decode(f[1]); err == nil && chain.Pos(cd) >= 0 {
+					c.Fail(sub, i, "announce-sync-not-cancelled-by-close", fmt.Sprintf("%s at %d: the sync was released only after Close had stopped the watcher, and still fetched and reported blocks", a.What, a.T), wit())
+					break
+				}
+			}
+		}
+		actMu.Unlock()
+		if l := s.GetLatestSync(id.ID); l != nil {
+			c.Fail(sub, i, "announce-sync-not-cancelled-by-close", "latest-synced was recorded: "+l.String(), wit())
 		}
 	}
 	// (c) no hook / store write after Close returned: give stragglers a moment to show themselves
